@@ -84,7 +84,20 @@ LEVEL_TEXT = ("Lean theorems for all stored-record maps, outcome scripts, lifecy
               "per pass. Oracle clauses added: a handler is invoked at most once per pass; a handler the registry selects is left out only "
               "as a resuming one that reached a final outcome in this process (judged from the observed outcomes); a sub-handler's record "
               "is referenced by EVERY record it is nested in; at most one success per cycle also at the function level; every clause "
-              "reads the records wherever the configured storage keeps them (annotations under any prefix, status, both).")
+              "reads the records wherever the configured storage keeps them (annotations under any prefix, status, both). "
+              "A FINISHED HANDLER THAT LEAVES THE SELECTION INSIDE AN OPEN CYCLE AND COMES BACK (seed C02f's class: a labels= / annotations= / "
+              "field= filter that stops matching and matches again; an @on.resume handler left out by the in-process memory and selected again "
+              "after a restart): finished_kept_while_unselected (the pass in which it is not selected keeps its record as it is), "
+              "finished_never_invoked_resumed (whatever the in-process memory of finished resuming handlers holds at each pass — emptied by "
+              "restarts — a handler recorded as finished is not invoked while the cycle is open; corollary of finished_never_invoked_varying); "
+              "the seeded variant `cycleUnselPurgeVariant` (the purge of fallen records extended to records of the current purpose whose "
+              "handler is not active) is indistinguishable from the code in one pass (unselected_purge_variant_same_pass), forgets the record "
+              "(unselected_purge_variant_forgets, every cfg / script / clock) and re-invokes the handler with retry 0 on the seed's histories "
+              "(unselected_purge_variant_reruns_witness: after a success and after a permanent failure). Oracle clause added (oracle_recorded): "
+              "the property's first sentence over the HISTORY of the object — once a pass of the cycle was given the object with the handler's "
+              "(or sub-handler's) own success / permanent failure on it, no later pass of that cycle invokes it: whatever the view given later "
+              "carries, whether or not it was selected in between, across graceful stops AND kills; the end of the cycle is judged from the "
+              "property text (every selected handler finished / nothing selected / another or no cause).")
 THEOREMS = [("Kopf.Props.C02", "Kopf.C02." + n) for n in [
     "no_rerun", "retry_kwarg", "invoked_selected_awake", "closed_iff_all_finished", "closed_ignores_unselected_records",
     "closed_despite_unselected_unfinished", "counts_running_variant_never_closes", "counts_running_variant_never_closes_witness",
@@ -100,12 +113,14 @@ THEOREMS = [("Kopf.Props.C02", "Kopf.C02." + n) for n in [
     "namesake_record_overwritten", "final_outcome_recorded_whole", "invokedSeqB_eq", "finished_never_invoked_whole",
     "once_per_cycle_whole", "namesake_not_inherited_regression", "namesake_subrefs_dropped_witness",
     "composed_pass_is_cycle2_over_taken", "cycle2B_child_no_rerun", "cycle2B_closed_purges_children",
-    "namesake_children_inherit_witness"]] + [("Kopf.Props.C02_Nested", "Kopf.C02." + n) for n in [
+    "namesake_children_inherit_witness",
+    "finished_kept_while_unselected", "unselected_purge_variant_same_pass", "unselected_purge_variant_forgets",
+    "unselected_purge_variant_reruns_witness"]] + [("Kopf.Props.C02_Nested", "Kopf.C02." + n) for n in [
     "subPassN_same_pass", "subPassN_eq_subPass_of_leaves", "subN_records_covered", "subN_reports_covered", "below_covered",
     "reported_purged_on_close", "nested_records_purged_on_close", "nested_accumulator_regression",
     "parentOutcome_subrefs", "parentOutcome_open", "parentOutcome_own", "failing_parent_children_purged_on_close",
     "left_out_is_resumed", "selectResumed_sub", "resumedAfter_mem", "closing_empties_resumed", "resumed_run_all_final",
-    "left_out_had_finished"]]
+    "left_out_had_finished", "finished_never_invoked_resumed"]]
 TIE_THEOREMS = [("Kopf.Tie.C02", "Kopf.C02.Tie." + n) for n in [
     "finished_eq", "sleeping_eq", "awakened_eq", "success_eq", "failure_eq", "one_by_one_eq", "all_at_once_eq"]]
 RULE = ("seeded scenarios: 1-4 change handlers (create/update/delete/resume, optional sub-handlers), outcome scripts over "
@@ -124,7 +139,13 @@ RULE = ("seeded scenarios: 1-4 change handlers (create/update/delete/resume, opt
         "finished, failed for good, retrying or sleeping (or a sibling keeps the cycle open) when the superseding cause — the deletion, an "
         "edit, a label flip — arrives, early or after the first cycle closed, stop / kill + restart in between, a foreign finalizer that keeps "
         "the object after the release, a resuming sibling (mix-in), sub-handlers under the first registration only or under both (histogram "
-        "namesake_record_not_inherited); a FREE family (gen_free): the object marked for deletion, not (or no longer) held by the "
+        "namesake_record_not_inherited); a RE-SELECTION family (gen_reselect): a handler reaches a final outcome (success, permanent failure, success "
+        "after a retry, failure by retries=) that is recorded, a sibling keeps the cycle open, then the finished handler is NOT selected in some "
+        "pass(es) and SELECTED AGAIN in the same cycle — by a label or annotation (value / presence) flipped away and back, by its field= being "
+        "reverted and changed again, as a finished @on.resume handler left out by the in-process memory and selected again after stop / kill + "
+        "restart (one or two), or both; causes create / update (found at the start or made on the timeline) / resume / delete; histograms "
+        "reselect_way, reselect_final, finished_handler_unselected_in_open_cycle, finished_handler_selected_again_in_open_cycle (measured by the "
+        "oracle); a FREE family (gen_free): the object marked for deletion, not (or no longer) held by the "
         "framework's finalizer, kept alive by somebody else's, carrying the records of create / update / resume handlers (some with "
         "sub-handlers) that were retrying when the deletion came — no deletion handler, an optional one, one whose label filter fails, or "
         "a mandatory one that is run and released first — then foreign edits, the other party letting go, stop / kill + restart "
@@ -543,6 +564,151 @@ def gen_deselect(rng: Any, i: int) -> dict:
     sc["timeline"] = timeline
     sc["end"] = t + 40.0
     sc["family"] = "deselect"
+    if rng.random() < 0.15:
+        sc["status_subresource"] = True
+    return sc
+
+
+RESELECT_WAYS = ["label", "label", "annotation", "field", "resumed", "resumed", "resumed+label"]
+
+
+def gen_reselect(rng: Any, i: int) -> dict:
+    """The SELECTED set changes inside an open cycle AND CHANGES BACK, over a FINISHED record (seed C02f's class; the
+    counterpart of gen_deselect, whose victim is unfinished and stays out): a handler reaches a final outcome — success,
+    permanent failure, success after a retry, failure by its retries= limit — and that is recorded on the object; a
+    sibling of the same cause keeps the cycle open (temporary failures with long delays); then the finished handler is
+    NOT selected in one or more passes of the still open cycle and is SELECTED AGAIN later in the same cycle. Every
+    way out of and back into the selection that the decorators and the framework offer:
+      label / annotation — a labels= / annotations= filter (a value, or presence) and somebody flipping the label /
+        annotation away and back (once or twice) while the sibling sleeps;
+      field — an update handler with field='spec.x' beside one on 'spec.y' (or an unfiltered one): x is reverted to its
+        last-handled value (not selected: no change of x) and changed again (selected again), y stays changed;
+      resumed — an @on.resume handler mixed into the update / the creation / the plain resuming found at the start: once
+        finished it is left out by the in-process memory (`memory.resumed_handlers`), a stop / kill + restart inside the
+        open cycle loses that memory and the listing selects it again (one or two restarts);
+      resumed+label — both.
+    Causes: create, update (the object changed while no operator ran, or is edited on the timeline), resume, delete (the
+    object is held by the framework's finalizer while the deletion handlers retry); three lifecycles (under one-by-one
+    the victim is registered first, else it would not run before the sibling has finished); stop / kill + restart at
+    random moments besides; a later edit of the spec (an update over an open update: the same cause goes on), a
+    deletion at the end; a second finished sibling that stays selected throughout (control)."""
+    way = rng.choice(RESELECT_WAYS)
+    cause = rng.choice(["create", "update", "update", "delete"]) if way in ("label", "annotation") else \
+        "update" if way == "field" else rng.choice(["update", "update", "create", "resume"])
+    long_d = rng.choice([4.0, 4.0, 8.0, 16.0])
+    n_sib = rng.choice([2, 2, 3])
+    final = rng.choice(["ok", "ok", "ok", "perm", "perm", "late-ok", "retries"])
+    v_script: list = {"ok": [], "perm": ["perm"], "late-ok": [["temp", 0.5]], "retries": [["temp", 0.25], ["temp", 0.25]]}[final]
+    v_opts: dict[str, Any] = {"retries": 2} if final == "retries" else {}
+    if rng.random() < 0.3:
+        v_opts["backoff"] = rng.choice([0.5, 1.0])
+    v_kind = cause
+    if way == "label":
+        v_opts["labels"] = {"l": rng.choice(["1", "1", "__PRESENT__"])}
+    elif way == "annotation":
+        v_opts["annotations"] = {"example.com/a": rng.choice(["1", "__PRESENT__"])}
+    elif way == "field":
+        v_opts["field"] = "spec.x"
+        if rng.random() < 0.25:
+            v_kind = "field"
+    else:
+        v_kind = "resume"
+        if way == "resumed+label":
+            v_opts["labels"] = {"l": "1"}
+    if cause == "resume":
+        v_kind = "resume"
+    victim = {"kind": v_kind, "id": "v", "opts": v_opts, "script": v_script, "default": "ok"}
+    s_kind = cause if cause != "resume" else "resume"
+    s_opts: dict[str, Any] = {"field": "spec.y"} if way == "field" and rng.random() < 0.6 else {}
+    if rng.random() < 0.3:
+        s_opts["backoff"] = rng.choice([1.0, 2.0])
+    sibling = {"kind": s_kind, "id": "s", "opts": s_opts, "default": rng.choice(["ok", "ok", "perm"]),
+               "script": [rng.choice([["temp", long_d], ["temp", long_d], "arb" if long_d <= 4.0 else ["temp", long_d]]) for _ in range(n_sib)]}
+    handlers = [victim, sibling]
+    if rng.random() < 0.3:       # control: finished too, selected throughout
+        handlers.append({"kind": s_kind, "id": "k", "opts": {}, "script": [rng.choice(["ok", "perm"])], "default": "ok"})
+    if cause != "delete" and rng.random() < 0.25:
+        handlers.append({"kind": "delete", "id": "d", "opts": {"optional": rng.random() < 0.3}, "script": [], "default": "ok"})
+    lifecycle = rng.choice(["asap", "one_by_one", "all_at_once", "all_at_once"])
+    if lifecycle != "one_by_one" or rng.random() < 0.2:
+        rng.shuffle(handlers)
+    labels0 = {"l": "1"}
+    ann0: dict[str, str] = {"example.com/a": "1"} if way == "annotation" else {}
+    spec0 = {"x": 0, "y": 0}
+    body0: dict[str, Any] = {"spec": dict(spec0), "metadata": {"labels": dict(labels0), "annotations": dict(ann0)}}
+    essence0: dict[str, Any] = {"spec": dict(spec0), "metadata": {"labels": dict(labels0)}}
+    if ann0:
+        essence0["metadata"]["annotations"] = dict(ann0)
+    sc: dict[str, Any] = {"seed": i, "lifecycle": lifecycle, "handlers": handlers, "family": "reselect", "reselect_way": f"{way}/{cause}/{final}",
+                          "settings": {"execution.default_backoff": rng.choice([4.0, 8.0]) if long_d > 4.0 else 4.0}}
+    timeline: list[list] = []
+    change = {"spec": {"x": 1, "y": 1}}
+    pre = way.startswith("resumed") or (cause in ("update", "delete") and rng.random() < 0.5)
+    if pre:
+        # the object exists when the operator starts: handled before (update / resume / delete) or never (create)
+        if cause != "create":
+            body0["metadata"]["annotations"][OWN_PREFIX + "last-handled-configuration"] = json.dumps(essence0, separators=(",", ":")) + "\n"
+        if cause == "delete":
+            body0["metadata"]["finalizers"] = [OWN_FINALIZER]
+        if cause == "update" and (way.startswith("resumed") and rng.random() < 0.7):
+            body0["spec"] = {"x": 1, "y": 1}        # changed while no operator ran: the update is found by the listing
+            t0 = 0.0
+        elif cause == "update":
+            t0 = rng.choice([1.0, 2.0])
+            timeline.append([t0, "edit", "a", change])
+        elif cause == "delete":
+            t0 = rng.choice([1.0, 2.0])
+            timeline.append([t0, "delete", "a"])
+        else:
+            t0 = 0.0
+        sc["objects"] = [{"name": "a", "body": body0}]
+    else:
+        timeline.append([1.0, "create", "a", body0])
+        t0 = 1.0
+        if cause == "update":
+            t0 = 3.0
+            timeline.append([t0, "edit", "a", change])
+        elif cause == "delete":
+            t0 = 3.0
+            timeline.append([t0, "delete", "a"])
+    # the victim has finished by t0 + 1 (late-ok / retries: two short waits); out of the selection, and back
+    t = t0 + rng.choice([1.0, 1.5, 2.0])
+    rounds = rng.choice([1, 1, 1, 2])
+    for _ in range(rounds):
+        gap = rng.choice([0.25, 0.5, 1.0, 2.0])
+        if way in ("label", "resumed+label"):
+            timeline.append([t, "edit", "a", {"metadata": {"labels": {"l": rng.choice(["0", None]) if v_opts.get("labels", {}).get("l") != "__PRESENT__" else None}}}])
+            back = [t + gap, "edit", "a", {"metadata": {"labels": {"l": "1"}}}]
+        elif way == "annotation":
+            timeline.append([t, "edit", "a", {"metadata": {"annotations": {"example.com/a": rng.choice(["0", None]) if v_opts["annotations"]["example.com/a"] != "__PRESENT__" else None}}}])
+            back = [t + gap, "edit", "a", {"metadata": {"annotations": {"example.com/a": "1"}}}]
+        elif way == "field":
+            timeline.append([t, "edit", "a", {"spec": {"x": 0}}])
+            back = [t + gap, "edit", "a", {"spec": {"x": 2 + len(timeline)}}]
+        else:
+            back = None
+        if way.startswith("resumed"):
+            # the memory of the finished resuming handlers goes with the process
+            ts = t + (rng.choice([0.125, 0.25]) if back else 0.0)
+            timeline.append([ts, rng.choice(["stop", "kill"])])
+            timeline.append([ts + rng.choice([0.25, 0.5, 1.0]), "start"])
+            if back:
+                back[0] = max(back[0], ts + rng.choice([0.125, 1.5]))
+        if back:
+            timeline.append(back)
+        t = max(t + gap, timeline[-1][0] if isinstance(timeline[-1][0], float) else t) + rng.choice([0.5, 1.0, 2.0])
+    if not way.startswith("resumed") and rng.random() < 0.35:
+        ts = rng.randrange(int((t0 + 0.5) * 64), int((t + 2.0) * 64)) / 64.0
+        timeline.append([ts, rng.choice(["stop", "kill"])])
+        timeline.append([ts + rng.choice([0.25, 0.5, 2.0]), "start"])
+    if cause in ("update", "create") and rng.random() < 0.2:
+        t += rng.choice([0.5, 2.0])
+        timeline.append([t, "edit", "a", {"spec": {"y": 7}}])
+    if cause != "delete" and any(h["kind"] == "delete" for h in handlers) and rng.random() < 0.5:
+        t += rng.choice([2.0, 3 * long_d + 4.0])
+        timeline.append([t, "delete", "a"])
+    sc["timeline"] = timeline
+    sc["end"] = t + (n_sib + 1) * long_d + 30.0
     if rng.random() < 0.15:
         sc["status_subresource"] = True
     return sc
@@ -1401,6 +1567,93 @@ def oracle(ctx: Ctx, sc: dict, tr: dict) -> None:
                     and (p["outcomes"] or not p["selected"]):
                 for key in [k for k in succ if k[0] == cyc["uid"]]:
                     succ.pop(key)
+    oracle_recorded(ctx, sc, tr)
+
+
+SIG_RECORDED = {"site": "process_changing_cause", "shape": "handler invoked again after its final outcome was recorded on the object earlier in the same handling cycle"}
+
+
+def oracle_recorded(ctx: Ctx, sc: dict, tr: dict) -> None:
+    """The FIRST sentence of the property, over the HISTORY of the object (not over the one view a pass is given): "within
+    one handling cycle of an object, a handler or sub-handler whose success or permanent failure is recorded on the object
+    is never invoked again — across retries of its siblings, intervening events and operator restarts".
+
+    `recorded[uid][id]`: a finished record (success / failure) of the handler's own (no purpose, or the purpose of the
+    cause being handled) was ON THE OBJECT some earlier pass of the same cycle was given. From then on, until the cycle
+    ends, no pass — of this operator process or of a later one, whatever happened to the record in between (a pass that
+    removes it from the object does not make the handler due again), whether or not the handler was selected in the
+    passes in between, after a graceful stop or a kill (what is on the object does not depend on how the process
+    ended) — may invoke it. Permanent failures count like successes (the at-most-one-success clause is silent on them).
+
+    The cycle ends, from the property text alone ("closed exactly when every selected handler has finished"): with a
+    pass after which every handler selected in it has finished (recorded before, or a final outcome in the pass), or
+    that has no handler selected; with a pass of another cause (the superseding cause starts its own cycle: the
+    established reading, theorem superseding_cause_reruns_witness) or of no cause (no-op / free / gone: the change was
+    reverted, the object released). A pass that was cut before its handlers returned (the process killed or stopped
+    under it) has closed nothing; one that raised after them is judged by the outcomes it got like any other."""
+    if sc.get("faults"):
+        return      # lost responses / rejected patches: what "is recorded on the object" is then the fault model's subject (C03/C12)
+    recorded: dict[Any, dict[str, dict]] = {}
+    was_out: dict[Any, set] = {}
+    reason_of: dict[Any, str] = {}
+    for cyc in tr["cycles"]:
+        p = cyc.get("pcc")
+        if not p:
+            continue
+        uid = cyc["uid"]
+        reason = p.get("reason")
+        if reason not in KINDS:
+            recorded.pop(uid, None), was_out.pop(uid, None), reason_of.pop(uid, None)
+            continue
+        if reason_of.get(uid) not in (None, reason):
+            recorded.pop(uid, None), was_out.pop(uid, None)
+        reason_of[uid] = reason
+        rec_u, out_u = recorded.setdefault(uid, {}), was_out.setdefault(uid, set())
+        selected = [h.replace("/", ".") for h in (p.get("selected") or [])]
+        # 1. the invocations of this pass against what EARLIER passes of the cycle found on the object
+        for inv in cyc["invoked"]:
+            key = _hid(inv).replace("/", ".")
+            if key in rec_u:
+                seen = rec_u[key]
+                how = "success" if seen["record"].get("success") else "permanent failure"
+                ctx.oracle_fail(f"handler {_hid(inv)} is invoked (retry={inv['retry']}) although its {how} was recorded on the object earlier in "
+                                f"this {reason} cycle (pass {seen['cycle']} of operator process {seen['inc']} was given the object with that record; "
+                                f"this is pass {cyc['i']} of process {cyc['inc']}"
+                                f"{', the handler was not selected in a pass in between' if key in out_u else ''}); the view given now "
+                                f"carries {'no record' if _own_record(cyc['body'], _hid(inv), sc) is None else 'another record'} under its id",
+                                {"scenario": sc, "cycle": cyc["i"], "recorded_in_cycle": seen["cycle"], "record": seen["record"],
+                                 "unselected_in_between": key in out_u},
+                                SIG_RECORDED)
+        # 2. what this pass's view of the object carries
+        for key, rec in _progress_records(cyc["body"], sc).items():
+            if isinstance(rec, dict) and _finished(rec) and rec.get("purpose") in (None, reason) and key not in rec_u:
+                rec_u[key] = {"cycle": cyc["i"], "inc": cyc["inc"], "record": rec}
+        owned = {h.replace("/", ".") for h in p.get("owned") or []}
+        for key in rec_u:       # (histogram: the class of histories this clause is about — measured, per re-selection)
+            if key in owned and key not in selected:
+                if key not in out_u:
+                    ctx.count("finished_handler_unselected_in_open_cycle",
+                              f"{reason}: {'left out by the resumed filter' if key in [h.replace('/', '.') for h in p.get('raw_selected') or []] else 'not selected by the registry'}")
+                out_u.add(key)
+            elif key in owned and key in out_u:
+                out_u.discard(key)
+                ctx.count("finished_handler_selected_again_in_open_cycle",
+                          f"{reason}: {'success' if rec_u[key]['record'].get('success') else 'permanent failure'} recorded, "
+                          f"{'another operator process' if rec_u[key]['inc'] != cyc['inc'] else 'same process'}")
+        # 3. does the cycle end with this pass?
+        if not selected:
+            recorded.pop(uid, None), was_out.pop(uid, None)
+            continue
+        if p.get("outcomes") is None:
+            continue        # the pass was cut (the process was killed / stopped under it) before its handlers returned: it closed nothing
+        all_fin = True
+        for hid in p["selected"]:
+            before = _own(p, hid, (p.get("P") or {}).get(hid))
+            o = p["outcomes"].get(hid)
+            if not (_finished(before) or (o and o["final"])):
+                all_fin = False
+        if all_fin:
+            recorded.pop(uid, None), was_out.pop(uid, None)
 
 
 def _iso_s(val: str) -> float:
@@ -1662,6 +1915,7 @@ def run(ctx: Ctx) -> None:
     scenarios += [gen_nested(ctx.rng, 96_000_000 + ctx.seed * 100000 + i) for i in range(max(90, n // 3))]
     scenarios += [gen_legacy(ctx.rng, 97_000_000 + ctx.seed * 100000 + i) for i in range(max(30, n // 8))]
     scenarios += [gen_stacked_resume(ctx.rng, 98_000_000 + ctx.seed * 100000 + i) for i in range(max(40, n // 6))]
+    scenarios += [gen_reselect(ctx.rng, 99_000_000 + ctx.seed * 100000 + i) for i in range(max(50, n // 4))]
     # other progress storages: a sample of every family re-run under another `settings.persistence.progress_storage`
     pick = [sc for sc in scenarios if not sc.get("objects") or sc.get("family") != "legacy"]
     scenarios += [with_storage(ctx.rng, sc) for sc in ctx.rng.sample(pick, min(len(pick), max(60, n // 4)))]
@@ -1672,6 +1926,9 @@ def run(ctx: Ctx) -> None:
         ctx.count("family", sc.get("family") or "base")
         if sc.get("after_ending"):
             ctx.count("parent_ending_after_its_children", sc["after_ending"])
+        if sc.get("reselect_way"):
+            ctx.count("reselect_way", sc["reselect_way"].rsplit("/", 1)[0])
+            ctx.count("reselect_final", sc["reselect_way"].rsplit("/", 1)[1])
         ctx.count("progress_storage", (sc.get("progress_storage") or {}).get("kind", "default (smart)"))
     results = pool.run_many(scenarios, wall=40.0)
     reqs, impls, where = [], [], []
@@ -1807,6 +2064,7 @@ def search(ctx: Ctx, broken: list) -> None:
     scenarios += [gen_nested(ctx.rng, 96_700_000 + ctx.seed * 100000 + i) for i in range(n // 3)]
     scenarios += [gen_supersede(ctx.rng, 57_000_000 + ctx.seed * 100000 + i) for i in range(n // 8)]
     scenarios += [gen_legacy(ctx.rng, 97_700_000 + ctx.seed * 100000 + i) for i in range(n // 8)]
+    scenarios += [gen_reselect(ctx.rng, 99_700_000 + ctx.seed * 100000 + i) for i in range(n // 4)]
     scenarios += [with_storage(ctx.rng, sc) for sc in ctx.rng.sample(scenarios, min(len(scenarios), n // 4))]
     # bias: replay the scenarios of the diverging passes first
     for b in broken[:10]:
